@@ -464,6 +464,20 @@ def run(p, report, tier):
     report.analysed["reference_set_arguments"] = n86
     report.analysed["per_candidate_loops"] = n85
     report.analysed["shrinking_pool_selections"] = n83
+    # ---------------- premises shared with C11 / C19
+    report.rule("R8.12", "the score of a candidate is a function of that candidate: the frequency-based classifiers "
+                "normalise and fall back to the uniform distribution ROW by ROW (shared with C11 R11.2), and a "
+                "hypothetical refit for one candidate starts from a private copy of the base model, so nothing of it "
+                "reaches the next candidate (shared with C19 R19.3)", floor=8)
+    from ..common import Report
+    from . import c11 as _c11, c19 as _c19
+    for mod_, pid, rid, pick in ((_c11, "C11", "R11.2", lambda o: "ClassFrequencyEstimator" in o.entity),
+                                 (_c19, "C19", "R19.3", lambda o: True)):
+        sub = Report(pid)
+        mod_.run(p, sub, "quick")
+        for o in sub.obligations:
+            if o.rule == rid and pick(o):
+                report.add("R8.12", o.entity, o.construct, o.loc, o.ok, detail=o.detail)
     report.assumptions += ["restriction invariance and permutation equivariance of the numbers are not decided",
                            "index spaces are inferred only from the idioms listed in the checker; unknown never fires"]
 
